@@ -113,9 +113,13 @@ package ttheader
 //@   ensures err == nil ==> param.HeaderLen == 14 + declared && param.PayloadLen == int(vs.BE32(U, 0)) + 4 - param.HeaderLen
 //@   ensures err == nil ==> uint16(param.Flags) == vs.BE16(U, 6) && param.SeqID == int32(vs.BE32(U, 8)) && uint8(param.ProtocolID) == U[14]
 //@   ensures err == nil ==> rdTake(in, 14 + declared)
+//@   let tnum = int(U[15])
+//@   ensures err == nil ==> vs.InfoOK(U[16+tnum : 14+declared]) >= 0
+//@   ensures okmeta && len(U) >= 14 + declared && vs.ProtoOK(U[14]) && tnum <= declared - 2 ==> (err == nil) == (vs.InfoOK(U[16+tnum : 14+declared]) >= 0)
 //@   ensures rdUsed(in) == 0 || rdUsed(in) == 14 || (okmeta && rdUsed(in) == 14 + declared)
 //@   assigns in.$u, in.$readlen, in.$lasterr
 //@   loop 1 invariant 0 <= i && i <= transformIDNum && hdIdx == 2 + i && transformIDNum <= len(headerInfo) - 2 && err == nil
+//@   loop 1 invariant len(headerInfo) == declared && eqbytes(headerInfo, 0, U, 14, declared)
 //@   loop 1 decreases transformIDNum - i
 
 // ---- encoding, over the bufiox.Writer interface contract ----
@@ -201,6 +205,8 @@ package ttheader
 //@   ensures okmeta && len(bs) >= 14 + declared && !vs.ProtoOK(bs[14]) ==> err != nil
 //@   ensures err == nil ==> param.HeaderLen == 14 + declared && param.PayloadLen == int(vs.BE32(bs, 0)) + 4 - param.HeaderLen
 //@   ensures err == nil ==> uint16(param.Flags) == vs.BE16(bs, 6) && param.SeqID == int32(vs.BE32(bs, 8)) && uint8(param.ProtocolID) == bs[14]
+//@   let tnum = int(bs[15])
+//@   ensures okmeta && len(bs) >= 14 + declared && vs.ProtoOK(bs[14]) && tnum <= declared - 2 ==> (err == nil) == (vs.InfoOK(bs[16+tnum : 14+declared]) >= 0)
 //@   assigns forall g int :: true ==> g.$pool
 
 // EncodeToBytes: Encode into a bytes writer, then Flush: the returned slice is the flushed buffer,
